@@ -36,7 +36,7 @@ pub(crate) fn exec(var: Variable) -> Variable {
     let element_type = var.as_type().element_type().unwrap();
     let default = Variable::of_type(&element_type).unwrap_or(Variable::Void);
     #[cfg(feature = "verif")]
-    let _helper = crate::verif::helper_scope();
+    let _helper = crate::verif::helper_scope("iter");
     let result = ITER
         .exec_with_args(&[var, default])
         .unwrap()
